@@ -88,22 +88,8 @@ def solve_sessions(sessions, repo, work, res, long_budget=240.0):
                                   {"op": "call", "d": 1, "prune": False, "mode": "solve", "obj": "new",
                                    "unless_prev_raised": True}],
                        "board": s["board"], "probs": s["probs"], "game": name, "budget": 8.0})
-    sf.record(ss, repo, budget=8.0)
-    verdicts, st = sf.validate(ss, work, timeout=6 * 3600)
-    # A timeout on a game whose conditioned game IS stopping must be decisive: such a solve
-    # terminates, possibly after very many sweeps (robot failure 0.9 needs ~40000).  Re-run
-    # those alone with a long budget before believing the timeout.
-    slow = [s for s in ss if any(c.startswith("C06.Timeout") for c in verdicts[s["tid"]]["fails"])]
-    if slow:
-        res.notes["C11.rerun_with_long_budget"] = len(slow)
-        for s in slow:
-            s["budget"] = long_budget
-            s.pop("events", None)
-        sf.record(slow, repo, budget=long_budget)
-        v2, st2 = sf.validate(slow, work, timeout=6 * 3600)
-        verdicts.update(v2)
-        st["distinct"] += st2["distinct"]
-        st["generated"] += st2["generated"]
+    verdicts, st = sf.record_validate(ss, repo, work, budget=8.0, long_budget=long_budget)
+    res.notes["C11.rerun_with_long_budget"] = st["rerun_with_long_budget"]
     res.coverage["states"] += st["distinct"]
     res.coverage["transitions"] += st["generated"]
     res.notes["C11.solver_sessions"] = len(ss)
